@@ -557,6 +557,7 @@ func runC02(c *Ctx) {
 
 	ruleRebuild(c, p, "C02.rebuild")
 	ruleCompressDst(c, p, "C02.dst")
+	ruleMethodTable(c, p, "C02.methods")
 	ruleDict(c, p, "C02.dict")
 	ruleVersionArgs(c, p, "C02.version")
 	rb := p.Method(core.PkgCompress, "Reader", "readBlock")
